@@ -175,7 +175,7 @@ precompile `executeClaim` on a pending bridge deposit of `n` addressed to the mi
 def parseStepX (kind : Nat) (w : String) : Option (List MStep) :=
   match w.toList with
   | 'f' :: rest => (String.ofList rest).toNat?.map fun n => [.evm (transferFrom 0 4 1 n) 0]
-  | 'e' :: rest => (String.ofList rest).toNat?.map fun n => [.nested (if kind = 0 then mint 0 n else transfer 2 0 n) 0 n]
+  | 'e' :: rest => (String.ofList rest).toNat?.map fun n => [if kind = 0 then .nested (mint 0 n) 0 n else .nested (transfer 2 0 n) n 0]
   | _ => parseStep kind w
 
 def parseX (kind : Nat) : List String → Option (List MStep) → Option (List XStep)
